@@ -141,6 +141,10 @@ pub struct Scene {
     pub creation: Option<Option<DateTime>>,
     pub items: Vec<Item>,
     pub xml_mode: XmlMode,
+    /// drop the top-level writer without calling finalize (C15)
+    pub no_finalize: bool,
+    /// stop the program at the first call that returns Err (fault runs, C16)
+    pub stop_on_err: bool,
 }
 
 // ------------------------------------------------------------------ string / number generators
@@ -1196,6 +1200,8 @@ pub fn gen_scene(r: &mut Rng, k: &Knobs, cover: &mut crate::Cover) -> Scene {
             1 => XmlMode::Identity,
             _ => XmlMode::AppendComment,
         },
+        no_finalize: false,
+        stop_on_err: false,
     }
 }
 
@@ -1203,6 +1209,7 @@ pub fn gen_scene(r: &mut Rng, k: &Knobs, cover: &mut crate::Cover) -> Scene {
 
 #[derive(Clone, Debug)]
 pub struct CallRec {
+    pub no: u32,
     pub op: String,
     pub ok: bool,
     pub err: Option<String>,
@@ -1236,6 +1243,8 @@ pub struct RunResult {
     pub xml_written: Option<String>,
     pub violations: Vec<Viol>,
     pub panicked: bool,
+    pub stopped_on_err: bool,
+    pub finalize_call_no: Option<u32>,
 }
 
 #[derive(Clone, Debug)]
@@ -1389,12 +1398,19 @@ pub fn run_scene(scene: &Scene, dev: Dev, judge: Judge) -> RunResult {
             call_no += 1;
             dev.set_call(call_no);
             let r = guarded(|| $body);
+            dev.set_call(0); // device traffic outside a public call (Drop) is attributed to call 0
             match &r {
-                Ok(Ok(_)) => res.calls.push(CallRec { op: $op.to_string(), ok: true, err: None, panic: None }),
-                Ok(Err(e)) => res.calls.push(CallRec { op: $op.to_string(), ok: false, err: Some(err_str(e)), panic: None }),
+                Ok(Ok(_)) => res.calls.push(CallRec { no: call_no, op: $op.to_string(), ok: true, err: None, panic: None }),
+                Ok(Err(e)) => {
+                    res.calls.push(CallRec { no: call_no, op: $op.to_string(), ok: false, err: Some(err_str(e)), panic: None });
+                    if scene.stop_on_err {
+                        res.stopped_on_err = true;
+                        return res;
+                    }
+                }
                 Err(p) => {
                     res.panicked = true;
-                    res.calls.push(CallRec { op: $op.to_string(), ok: false, err: None, panic: Some(p.clone()) });
+                    res.calls.push(CallRec { no: call_no, op: $op.to_string(), ok: false, err: None, panic: Some(p.clone()) });
                     res.violations.push(viol(
                         if judge == Judge::Hostile { "C10" } else { "C01" },
                         format!("panic/{}/{}", $op, panic_sig(p)),
@@ -1553,7 +1569,7 @@ pub fn run_scene(scene: &Scene, dev: Dev, judge: Judge) -> RunResult {
                             res.violations.push(viol("C10", format!("accept/prototype/{}", why), format!("rule-breaking prototype accepted: {}", proto_str(&spec.prototype))));
                             // content is undefined from here on; do not go further with this program
                             drop(pw);
-                            res.calls.push(CallRec { op: "stop-after-bad-prototype".into(), ok: true, err: None, panic: None });
+                            res.calls.push(CallRec { no: call_no, op: "stop-after-bad-prototype".into(), ok: true, err: None, panic: None });
                             return res;
                         }
                         pw
@@ -1578,6 +1594,14 @@ pub fn run_scene(scene: &Scene, dev: Dev, judge: Judge) -> RunResult {
                     call_no += 1;
                     dev.set_call(call_no);
                     let r = guarded(|| pw.add_point(pt.clone()));
+                    dev.set_call(0);
+                    if scene.stop_on_err {
+                        if let Ok(Err(e)) = &r {
+                            res.calls.push(CallRec { no: call_no, op: "add_point".into(), ok: false, err: Some(err_str(e)), panic: None });
+                            res.stopped_on_err = true;
+                            return res;
+                        }
+                    }
                     match r {
                         Ok(Ok(())) => {
                             if let Err(why) = fits {
@@ -1600,13 +1624,13 @@ pub fn run_scene(scene: &Scene, dev: Dev, judge: Judge) -> RunResult {
                         }
                         Err(p) => {
                             res.panicked = true;
-                            res.calls.push(CallRec { op: "add_point".into(), ok: false, err: None, panic: Some(p.clone()) });
+                            res.calls.push(CallRec { no: call_no, op: "add_point".into(), ok: false, err: None, panic: Some(p.clone()) });
                             res.violations.push(viol(pj, format!("panic/add_point/{}", panic_sig(&p)), format!("add_point panicked: {} :: point {} = {} for {}", p, pi, raw_str(pt), proto_str(&spec.prototype))));
                             return res;
                         }
                     }
                 }
-                res.calls.push(CallRec { op: format!("add_point x{}", spec.points.len()), ok: true, err: None, panic: None });
+                res.calls.push(CallRec { no: call_no, op: format!("add_point x{}", spec.points.len()), ok: true, err: None, panic: None });
                 if spec.abandon || stop {
                     continue;
                 }
@@ -1625,6 +1649,11 @@ pub fn run_scene(scene: &Scene, dev: Dev, judge: Judge) -> RunResult {
             }
         }
     }
+    if scene.no_finalize {
+        drop(w);
+        return res;
+    }
+    res.finalize_call_no = Some(call_no + 1);
     let recorded = std::cell::RefCell::new(None::<String>);
     let r = match scene.xml_mode {
         XmlMode::Plain => call!("E57Writer::finalize", w.finalize()),
